@@ -26,6 +26,7 @@
         u is Obj && payload_of(self.sd_jwt_payload@, u->Obj_0, s, self.holder_key)
             && self.all_disclosures@.len() == hcount(J::Obj(without_root(u->Obj_0)), s)
             && payload_enc(self.sd_jwt_payload@, u->Obj_0, s, self.holder_key, self.all_disclosures@, 0)
+            && all_wf_from(self.all_disclosures@, 0)
             && self.signed_ok() && self.combined_ok()
     }
     // serialising the JSON envelope of this issuance fails (A-JSON: it never does; the reason is a function of the value alone)
